@@ -7,6 +7,8 @@ CONSTANTS
   InsertNewTagStoresChars = FALSE
   NonAtomicRead = TRUE
   NonAtomicQread = FALSE
+  ReverseViewCached = FALSE
+  AliasBoundToFirstObject = FALSE
   ShallowCopy = FALSE
   SrcSteps = 0
   Emit = FALSE
